@@ -145,8 +145,32 @@ package dsl
 //@   requires value != nil
 //@   ensures result1 == nil ==> result0 != nil
 //@   invariant 1: len(vals) * 2 == i && (forall k in 0..len(vals) :: vals[k] != nil)
+// C11/C09: a package is accepted only if every model file in it satisfies the rules. A directory walk that fails
+// (a sub-directory that cannot be read, a file that vanished) has not seen every model file: it is an error of the
+// command, not a log line followed by a model made of the files that could be listed.
+//@ func ParseYamlInDir
+//@   property C11,C09
+//@   ensures an_incomplete_directory_walk_is_an_error: errSeen(filepath.Walk) ==> result1 != nil
 //@ func parseError
 //@   requires node != nil
+// Diagnostics are located: whoever reports an error or a warning hands over the node it is about (both constructors
+// read its position). The evolution checks report through sink closures of type SinkWarningOrError; a call through
+// such a value owes the same thing, also when a protocol was removed and the latest model is empty.
+//@ func validationError
+//@   property C10
+//@   requires node != nil
+//@ func validationWarning
+//@   property C10
+//@   requires node != nil
+//@ funcvalue-pre SinkWarningOrError nonnil
+//@ func validateChanges@saveWarning
+//@   requires node != nil
+//@ func validateChanges@saveError
+//@   requires node != nil
+//@ func validateProtocolChanges
+//@   property C10,C06
+//@ func validateTypeDefinitionChanges
+//@   property C10,C06
 // Expression nodes carry the position of their token (1-based, relative to the expression text); ParseExpression
 // then shifts it by the host node's position. A node without a position cannot produce a located diagnostic.
 //@ func nodeMetaFromPosition
